@@ -347,6 +347,17 @@ FAMILY_WORDS = [("Binary", "Integer", "Real", "Subset"), ("TwoWay", "ThreeWay", 
                 ("Molecular", "VanRaden", "Yang", "GeneralizedWeighted")]
 
 
+def _through_alias(f, v, depth=0):
+    """a local that is bound once, to a plain name or attribute, stands for that name (`weights = mkrwt ; g(mkrwt=weights)` hands on mkrwt)"""
+    if depth > 3 or not isinstance(v, ast.Name) or v.id in f.params():
+        return v
+    defs = [st.value for st in walk_no_nested(f.node) if isinstance(st, ast.Assign) and len(st.targets) == 1 and isinstance(st.targets[0], ast.Name) and st.targets[0].id == v.id]
+    other = [1 for st in walk_no_nested(f.node) if isinstance(st, (ast.AugAssign, ast.For, ast.With)) and any(isinstance(x, ast.Name) and x.id == v.id and isinstance(x.ctx, ast.Store) for x in ast.walk(st))]
+    if len(defs) == 1 and not other and isinstance(defs[0], (ast.Name, ast.Attribute)):
+        return _through_alias(f, defs[0], depth + 1)
+    return v
+
+
 def check_family(prog, rep, rule, prefixes, exclude=()):
     """RW-family, two obligations on families of sibling classes (the Binary / Integer / Real / Subset variants of one protocol or problem, the two-/three-/four-way
     variance matrices and their factories, ...):
@@ -420,7 +431,7 @@ def check_family(prog, rep, rule, prefixes, exclude=()):
                         for kw in call.keywords:
                             if kw.arg:
                                 bound[kw.arg] = kw.value
-                        table.setdefault((ft, cnt[ft]), {})[e] = (f, call, {p_: dump(v) for p_, v in bound.items()})
+                        table.setdefault((ft, cnt[ft]), {})[e] = (f, call, {p_: dump(_through_alias(f, v)) for p_, v in bound.items()})
                 for key, per in sorted(table.items()):
                     if len(per) < 3:
                         continue
@@ -466,11 +477,90 @@ WIRING = {
 PROPERTY_FLOORS = {"C01": 40, "C03": 125, "C04": 32, "C05": 90, "C06": 210, "C07": 208, "C11": 45, "C12": 36, "C13": 33, "C14": 21, "C15": 9, "C20": 43}
 
 
+# ------------------------------------------------------------------------------------------------ self-check on a miniature module
+# (rule, substring of the construct, substring of the detail) that must be reported on fixtures/wiring, and nothing else
+EXPECTED = [
+    ("RW-forward", "CrossWiredChild.__init__", "`beta` receives this constructor's `alpha`"),
+    ("RW-forward", "DroppingChild.__init__", "`gamma` is accepted but neither handed"),
+    ("RW-forward", "forgetting_caller", "`third` is accepted and the callee has a parameter"),
+    ("RW-argorder", "exchanging_caller", "exchanged"),
+    ("RW-argorder", "double_feeding_caller", "`second` receives `first`"),
+    ("RW-argorder", "attribute_feeding_caller", "`second` receives `obj.first`"),
+    ("RW-argorder", "absorbing_caller", "disappears into **kwargs"),
+    ("RW-property", "Store.right", "getter returns self._left"),
+    ("RW-property", "Derived.middle#setter", "declared on property `left`"),
+    ("RW-argorder", "CrossWiredChild.__init__", "`beta` receives `alpha`"),            # the cross-wired constructor is also a double feed
+    ("RW-property", "Derived.left", "getter returns self._left but the setter stores self._middle"),   # ... and the misnamed accessor a read/write mismatch
+    ("RW-family", "Thing#Selection.problem", "the Real variant hands `other` to `data`"),
+    ("RW-family", "ThingSubsetSelection.problem -> ThingBinaryProblem", "dispatches to the Binary counterpart"),
+]
+_SELFCHECK = None
+
+
+class _Collector:
+    def __init__(self):
+        self.v, self.extra, self.only_rules, self.explanation = [], {}, None, ""
+
+    def violate(self, rule, construct, detail, *a, **k):
+        self.v.append((rule, construct, detail))
+
+    def unrec(self, rule, construct, why):
+        self.v.append((rule, construct, "UNRECOGNISED " + why))
+
+    def __getattr__(self, name):
+        return lambda *a, **k: None
+
+
+def selfcheck():
+    """run the four wiring rules on fixtures/wiring (a module with one deliberate instance of every fault kind next to correct twins) and return the list of
+    discrepancies between what they report and EXPECTED - empty when every violation branch of the rules still fires and nothing else does"""
+    global _SELFCHECK
+    if _SELFCHECK is not None:
+        return _SELFCHECK
+    import os
+    from sa.model import Program
+    here = os.path.dirname(os.path.dirname(os.path.abspath(__file__)))
+    saved = os.environ.get("VERIF_NO_REFERENCE")
+    os.environ["VERIF_NO_REFERENCE"] = "1"      # the reference table describes /repo, not the fixture
+    try:
+        fx = Program(repo=os.path.join(here, "fixtures", "wiring"), exclude=())
+    finally:
+        if saved is None:
+            os.environ.pop("VERIF_NO_REFERENCE", None)
+        else:
+            os.environ["VERIF_NO_REFERENCE"] = saved
+    col = _Collector()
+    pre = ["pybrops.fx"]
+    check_super_init(fx, col, "RW-forward", pre, "fixture")
+    check_dropped_forward(fx, col, "RW-forward", pre)
+    check_argument_exchange(fx, col, "RW-argorder", pre)
+    check_properties(fx, col, "RW-property", pre)
+    check_family(fx, col, "RW-family", pre)
+    problems = []
+    left = list(col.v)
+    for rule, cons, det in EXPECTED:
+        hit = [x for x in left if x[0] == rule and cons in x[1] and det in x[2]]
+        if not hit:
+            problems.append("fixture fault not reported: %s %s (%s)" % (rule, cons, det))
+        for x in hit[:1]:
+            left.remove(x)
+    for x in left:
+        problems.append("unexpected report on the fixture: %s %s: %s" % (x[0], x[1], x[2][:80]))
+    _SELFCHECK = problems
+    return problems
+
+
 def wire(prog, rep, prop, floor_forward, floor_argorder, floor_family=None):
     """arm the two constructor-forwarding obligations (RW-forward) and the argument-exchange obligation (RW-argorder) on the modules a property owns"""
     prefixes, exclude, what = WIRING[prop]
+    for pr in selfcheck():
+        rep.unrec("RW-selfcheck", "fixtures/wiring", pr)
+    rep.extra["wiring_selfcheck"] = "%d fault kinds of fixtures/wiring reported, nothing else" % len(EXPECTED) if not selfcheck() else "FAILED"
     if getattr(rep, "only_rules", None):
         rep.only_rules = set(rep.only_rules) | {"RW-forward", "RW-argorder"}
+    if isinstance(getattr(rep, "explanation", None), str) and "Wiring rules" not in rep.explanation:
+        rep.explanation += (" Wiring rules over the resolved calls of %s: options forwarded under their own names along constructor chains and same-named calls, no exchange / "
+                            "double feed / dropped or absorbed argument, accessor pairs read what they write, sibling families dispatch and wire alike." % ", ".join(prefixes))
     rep.floor("RW-forward", floor_forward)
     rep.floor("RW-argorder", floor_argorder)
     nf = check_super_init(prog, rep, "RW-forward", prefixes, what, exclude)
